@@ -2,14 +2,15 @@ open Model
 open Io
 
 (* requests (tab separated):
-     tok <text>        -> O <k>:<v>;<k>:<v>...  |  !TokenizeError <index>  |  !<ExceptionClass>
+     tok <text>        -> O <k>:<v>;<k>:<v>... c<has_comments 0/1>  |  !TokenizeError <index> <line> <column>  |  !<ExceptionClass>
+     tokm <lo> <co> <text>   the same with line / column offsets (TokenizeError.clone)
      spec <ast...>     -> <wf 0/1>|<print_block>|<meaning pairs k:v;...>|<model result on print_block>
    AST encoding (prefix, one field per token), see props/C07.py enc_block:
      block  := <lead> <nitems> item*
-     item   := C <text> <trail> | K key <ksp> value <trail>
+     item   := C <indent> <text> <trail> | K key <ksp> value <trail>      (blank lines: list of space counts 0,2,1 or -)
      key    := kp pline | ks <str> | kd dq
      pline  := <first> <n> (<spaces> <word>)*
-     dq     := <n> (c <N> | e <N> | h <N> <digits>)*
+     dq     := <n> (c <N> | e <N> | h <N> <digits> | l <k> <ind>)*
      value  := vn <tsp> <cm> | vf <vsp> flow <tsp> <cm>
              | vb <vsp> <folded> <chomp 0 clip 1 strip 2 keep> <explicit> <chomp_first> <hsp> <hcm> <lead> <indent> <first> <n> (<k> <text>)*
      flow   := fp pline <n> (<tsp> <k> <ind> pline)* | fs <str> <n> (<tws> <k> <ind> <str>)* | fd dq <n> (<tws> <k> <ind> dq)*  *)
@@ -34,6 +35,19 @@ let show_res (r : (n list * n list) list res) : string =
   | Ok ps -> "O " ^ show_pairs_raw ps
   | Raise e -> show_exn e
 
+(* with the mark (index, line, column) that the error carries, from the bookkeeping spec *)
+let show_res_mark (text : n list) (lo : int) (co : int) (r : (n list * n list) list res) : string =
+  match r with
+  | Raise (TokenizeError p) ->
+      let ((i, l), c) = error_mark text (n_of_int lo) (n_of_int co) (nat_of_int (int_of_n p)) in
+      Printf.sprintf "!TokenizeError %d %d %d" (int_of_n i) (int_of_n l) (int_of_n c)
+  | Ok ps ->
+      (* pairs from options_to_items, the flag from the instrumented options_to_items_state *)
+      (match options_to_items_state text with
+       | Ok (ps', cm) -> if ps' = ps then "O " ^ show_pairs_raw ps ^ (if cm then " c1" else " c0") else "!erasure-mismatch"
+       | Raise _ -> "!erasure-mismatch")
+  | _ -> show_res r
+
 (* ---- AST reader ---- *)
 let toks : string list ref = ref []
 let next () = match !toks with [] -> failwith "ast: unexpected end" | x :: r -> toks := r; x
@@ -44,6 +58,9 @@ let p_str () = str_of_field (next ())
 let p_ostr () = ostr_of_field (next ())
 let rec p_rep n f = if n <= 0 then [] else let x = f () in x :: p_rep (n - 1) f
 let p_list f = let n = p_int () in p_rep n f
+(* list of naturals as one field: 0,2,1  ("-" = empty) *)
+let p_nats () = let f = next () in
+  if f = "-" || f = "" then [] else List.map (fun x -> nat_of_int (int_of_string x)) (String.split_on_char ',' f)
 
 let p_pline () =
   let first = p_str () in
@@ -56,6 +73,7 @@ let p_dq () =
     | "c" -> DChr (n_of_int (p_int ()))
     | "e" -> DEsc (n_of_int (p_int ()))
     | "h" -> let k = n_of_int (p_int ()) in let ds = p_str () in DHex (k, ds)
+    | "l" -> let k = p_nat () in let ind = p_str () in DBrk (k, ind)
     | x -> failwith ("ast: dq item " ^ x))
 
 let p_flow () =
@@ -63,7 +81,7 @@ let p_flow () =
   | "fp" ->
       let l0 = p_pline () in
       let more = p_list (fun () ->
-        let tsp = p_nat () in let k = p_nat () in let ind = p_nat () in let l = p_pline () in
+        let tsp = p_nat () in let k = p_nats () in let ind = p_nat () in let l = p_pline () in
         (((tsp, k), ind), l)) in
       FPlain (l0, more)
   | "fs" ->
@@ -90,8 +108,8 @@ let p_value () =
       let vsp = p_nat () in let folded = p_bool () in
       let ch = (match p_int () with 0 -> Clip | 1 -> Strip | _ -> Keep) in
       let expl = p_bool () in let cf = p_bool () in let hsp = p_nat () in let hcm = p_ostr () in
-      let lead = p_nat () in let indent = p_nat () in let first = p_str () in
-      let more = p_list (fun () -> let k = p_nat () in let t = p_str () in (k, t)) in
+      let lead = p_nats () in let indent = p_nat () in let first = p_str () in
+      let more = p_list (fun () -> let k = p_nats () in let t = p_str () in (k, t)) in
       VBlock (vsp, folded,
               { h_chomp = ch; h_explicit = expl; h_chomp_first = cf; h_sp = hsp; h_comment = hcm },
               lead, indent, first, more)
@@ -106,27 +124,29 @@ let p_key () =
 
 let p_item () =
   match next () with
-  | "C" -> let t = p_str () in let trail = p_nat () in IComment (t, trail)
+  | "C" -> let n = p_nat () in let t = p_str () in let trail = p_nats () in IComment (n, t, trail)
   | "K" ->
-      let k = p_key () in let ksp = p_nat () in let v = p_value () in let trail = p_nat () in
+      let k = p_key () in let ksp = p_nat () in let v = p_value () in let trail = p_nats () in
       IKV (k, ksp, v, trail)
   | x -> failwith ("ast: item " ^ x)
 
 let p_block () =
-  let lead = p_nat () in
+  let lead = p_nats () in
   let items = p_list p_item in
   { b_lead = lead; b_items = items }
 
 let handle (fs : string list) : string =
   match fs with
-  | ["tok"; text] -> show_res (options_to_items (str_of_field text))
+  | ["tok"; text] -> let t = str_of_field text in show_res_mark t 0 0 (options_to_items t)
+  | ["tokm"; lo; co; text] ->
+      let t = str_of_field text in show_res_mark t (int_of_string lo) (int_of_string co) (options_to_items t)
   | "spec" :: rest ->
       toks := rest;
       let b = p_block () in
       if !toks <> [] then failwith "ast: trailing tokens" else
       let text = print_block b in
       String.concat "|" [ (if wf_block b then "1" else "0"); field_of_str text;
-                          show_pairs_raw (meaning_block b); show_res (options_to_items text) ]
+                          show_pairs_raw (meaning_block b); show_res_mark text 0 0 (options_to_items text) ]
   | _ -> "!badcmd"
 
 let () = main handle
